@@ -59,7 +59,11 @@ def run(pid: str) -> int:
     fam = "replay"
     if replay:
         case = json.load(open(replay))["case"]
-        entries = [{"scn": case["scn"], "valid": [case["case"]] if case.get("case") and which == "valid" else [], "viol": [case["case"]] if case.get("case") and which == "viol" else []}]
+        origin = case.get("origin", "spec")
+        if origin.startswith("corpus:"):
+            entries = [e for e in corpus_entries() if e["corpus"]["name"] == origin.split(":", 1)[1]]
+        else:
+            entries = [{"scn": case["scn"], "valid": [case["case"]] if case.get("case") and which == "valid" else [], "viol": [case["case"]] if case.get("case") and which == "viol" else []}]
     else:
         out_p = ck.work / "docs.json"
         g = ck.tlc("ConstraintsDocGen", "ConstraintsDocGen%s.cfg" % suffix, what="G: scenarios with valid documents and single-constraint violations", env={"VERIF_OUT": str(out_p)}, count=False, timeout=2400)
@@ -100,7 +104,7 @@ def run(pid: str) -> int:
                 oracle_doubts.append("%s: %s %s sdk_valid=%s" % (v["invariant"], json.dumps(c["scn"])[:300], c["case"], c["sdk_valid"]))
                 continue
             key = {"clause": v["invariant"], "cause": k["cause"], "kind": k["kind"], "mut": k["mut"], "origin": k["origin"]}
-            ck.violation(key, v["invariant"], {"scn": c["scn"], "case": c["case"]}, {"accepted": c["accepted"], "sdk_valid": c["sdk_valid"], "msg": c["msg"], "doc": c.get("doc", "")}, detail="%s: doc %s (%s); sources %s" % (CLAUSES[v["invariant"]], c.get("doc", ""), c["msg"][:120], k.get("sources")))
+            ck.violation(key, v["invariant"], {"scn": c["scn"], "case": c["case"], "origin": c["origin"]}, {"accepted": c["accepted"], "sdk_valid": c["sdk_valid"], "msg": c["msg"], "doc": c.get("doc", "")}, detail="%s: doc %s (%s); sources %s" % (CLAUSES[v["invariant"]], c.get("doc", ""), c["msg"][:120], k.get("sources")))
     if oracle_doubts:
         raise core.MachineryFailure("oracle self-check failed (spec vs generated verification), %d case(s): %s" % (len(oracle_doubts), oracle_doubts[0]))
 
